@@ -115,8 +115,8 @@ def judge(case, ctx, prefix='C01'):
         ctx.violation(f'{prefix}/solver-raised/{sol.key}', f'a well-posed network failed to solve: {sol.text}', {'kappa': refd['kappa']})
         return
     getters = {'phi': sol.get_potential, 'V': sol.get_voltage, 'I': sol.get_current, 'P': sol.get_power}
-    bad = netsolve.compare(desc, refd, getters, ctx, prefix)
-    netsolve.certificate(desc, getters, refd, ctx, prefix)
+    bad = netsolve.compare(refd, getters, ctx, prefix)
+    netsolve.certificate(refd, getters, ctx, prefix)
     # open_circuit_voltage for a few node pairs
     ns = netdesc.nodes(desc)
     pairs = list(itertools.permutations(ns, 2))
